@@ -53,6 +53,207 @@ def to_leaf(lit, ann):
     return ('L', kind, rules)
 
 
+def leaf_cases():
+    """(example, kind, [(rule name, value text)]) - every rule the converter turns into a keyword, at the edges of its ranges"""
+    out = []
+    big = ['9223372036854775807', '9223372036854775808', '18446744073709551615']
+    for ex in ['"abc"', '"\\u00e9\\ud83d\\ude00x"', '"a b"']:
+        for mn in [None, '0', '1', '3']:
+            for mx in [None, '3', '10'] + big:
+                rules = ([('minLength', mn)] if mn else []) + ([('maxLength', mx)] if mx else [])
+                out.append((ex, 's', rules))
+        out.append((ex, 's', [('minLength', '1'), ('maxLength', '5'), ('nullable', 'true')]))
+        out.append((ex, 's', [('enum', '[%s, "other", 1, null]' % ex)]))
+        out.append((ex, 's', [('const', 'true')]))
+        out.append((ex, 's', [('type', '"string"'), ('minLength', '2')]))
+    for ex, digits in [('1.5', 1), ('0.25', 2), ('3.140', 2), ('-0.001', 3), ('2.0', 0)]:
+        for p in [1, 2, 3, 5, 15, 22, 23, 24, 25, 26, 30, 31, 100, 300, 323, 324, 400, 9223372036854775807]:
+            if digits <= p:
+                out.append((ex, 'f', [('precision', str(p))]))
+                out.append((ex, 'f', [('type', '"decimal"'), ('precision', str(p))]))
+        out.append((ex, 'f', [('min', '-100'), ('max', '100.5'), ('exclusiveMaximum', 'true'), ('precision', '4'), ('nullable', 'true')]))
+        out.append((ex, 'f', [('const', 'true')]))
+        out.append((ex, 'f', [('enum', '[%s, 7]' % ex)]))
+        out.append((ex, 'f', [('type', '"float"')]))
+    for ex in ['5', '-3', '12345678901234567890', '0']:
+        out.append((ex, 'i', []))
+        out.append((ex, 'i', [('enum', '[%s, 7, "x", null, true]' % ex)]))
+        out.append((ex, 'i', [('const', 'true')]))
+        out.append((ex, 'i', [('nullable', 'true')]))
+        out.append((ex, 'i', [('nullable', 'false')]))
+        out.append((ex, 'i', [('type', '"integer"'), ('min', '-100'), ('exclusiveMinimum', 'true'), ('max', '99999999999999999999')]))
+        out.append((ex, 'i', [('min', ex), ('max', ex), ('const', 'true'), ('nullable', 'true')]))
+    for ex in ['true', 'false']:
+        out.append((ex, 'b', []))
+        out.append((ex, 'b', [('const', 'true')]))
+        out.append((ex, 'b', [('enum', '[true, false]')]))
+        out.append((ex, 'b', [('nullable', 'true')]))
+    out.append(('null', 'n', []))
+    out.append(('null', 'n', [('const', 'true')]))
+    out.append(('null', 'n', [('enum', '[null, 1]')]))
+    return out
+
+
+def leaf_tokens(kind, rules):
+    """the leaf in the wire form of Extract/RunRules.v: F <kind> <n> rule*"""
+    names = dict(rules)
+    toks, count = [], 0
+    for n, v in rules:
+        if n == 'min':
+            toks += ['m', hx(v), '1' if names.get('exclusiveMinimum') == 'true' else '0']
+        elif n == 'max':
+            toks += ['M', hx(v), '1' if names.get('exclusiveMaximum') == 'true' else '0']
+        elif n == 'precision':
+            toks += ['p', v]
+        elif n == 'minLength':
+            toks += ['l', v]
+        elif n == 'maxLength':
+            toks += ['L', v]
+        elif n == 'enum':
+            items = split_items(v)
+            toks += ['e', str(len(items))] + [hx(x) for x in items]
+        elif n == 'nullable' and v == 'true':
+            toks += ['n']
+        elif n == 'const' and v == 'true':
+            toks += ['c']
+        else:
+            continue
+        count += 1
+    return ['F', kind, str(count)] + toks
+
+
+def split_items(text):
+    """the literals of a JSON array written on one line, as written"""
+    inner = text.strip()[1:-1]
+    items, cur, instr, esc = [], '', False, False
+    for ch in inner:
+        if instr:
+            cur += ch
+            if esc:
+                esc = False
+            elif ch == '\\':
+                esc = True
+            elif ch == '"':
+                instr = False
+        elif ch == '"':
+            instr = True
+            cur += ch
+        elif ch == ',':
+            items.append(cur.strip())
+            cur = ''
+        else:
+            cur += ch
+    if cur.strip():
+        items.append(cur.strip())
+    return items
+
+
+AP_FORMS = [(None, 'f'), ('false', 'f'), ('true', 'y'), ('"any"', 'y'), ('"string"', 'ts'), ('"integer"', 'ti'), ('"float"', 'tn'), ('"boolean"', 'tb')]
+TKEYS = ['"a"', '"b c"', '"\\u00e9"', '"k\\"q"', '"\\\\"', '"0"', '"#"', '"t\\tab"', '""']
+
+
+def gen_tree(rng, depth, pool):
+    """('V', ex, kind, rules) | ('A', items, min, max, nullable) | ('O', [(key, optional, node)], ap, nullable) - no references"""
+    r = rng.random()
+    if depth >= 3 or r < 0.4:
+        ex, kind, rules = rng.choice(pool)
+        return ('V', ex, kind, rules)
+    if r < 0.68:
+        n = rng.randint(0, 3)
+        items = [gen_tree(rng, depth + 1, pool) for _ in range(n)]
+        mn = rng.choice([None, None, 0, n])
+        mx = rng.choice([None, None, n, n + 2, 9223372036854775807, 9223372036854775808])
+        if n == 0:      # an empty example array admits only 0 for both counts
+            mn, mx = rng.choice([None, 0]), rng.choice([None, 0])
+        return ('A', items, mn, mx, rng.random() < 0.2)
+    n = rng.randint(0, 3)
+    keys = rng.sample(TKEYS, n)
+    ms = [(k, rng.random() < 0.3, gen_tree(rng, depth + 1, pool)) for k in keys]
+    return ('O', ms, rng.choice(AP_FORMS), rng.random() < 0.2)
+
+
+def ann_of(rules):
+    return (' // {' + ', '.join('%s: %s' % (n, v) for n, v in rules) + '}') if rules else ''
+
+
+def tree_text(t, indent, extra, comma):
+    """JSight text of the tree; `extra`: rules of the member (optional), `comma`: what follows the value"""
+    pad = '  ' * indent
+    if t[0] == 'V':
+        return t[1] + comma + ann_of(list(t[3]) + extra)
+    if t[0] == 'A':
+        rules = extra + ([('minItems', str(t[2]))] if t[2] is not None else []) + ([('maxItems', str(t[3]))] if t[3] is not None else []) + ([('nullable', 'true')] if t[4] else [])
+        lines = [pad + '  ' + tree_text(x, indent + 1, [], ',' if i + 1 < len(t[1]) else '') for i, x in enumerate(t[1])]
+        return '[' + ann_of(rules) + '\n' + ''.join(l + '\n' for l in lines) + pad + ']' + comma
+    rules = extra + ([('additionalProperties', t[2][0])] if t[2][0] is not None else []) + ([('nullable', 'true')] if t[3] else [])
+    lines = [pad + '  ' + k + ': ' + tree_text(x, indent + 1, [('optional', 'true')] if o else [], ',' if i + 1 < len(t[1]) else '') for i, (k, o, x) in enumerate(t[1])]
+    return '{' + ann_of(rules) + '\n' + ''.join(l + '\n' for l in lines) + pad + '}' + comma
+
+
+def tree_tokens(t):
+    if t[0] == 'V':
+        return ['V', hx(t[1])] + leaf_tokens(t[2], t[3])
+    if t[0] == 'A':
+        out = ['A', str(len(t[1])), '-' if t[2] is None else str(t[2]), '-' if t[3] is None else str(t[3]), '1' if t[4] else '0']
+        for x in t[1]:
+            out += tree_tokens(x)
+        return out
+    out = ['O', str(len(t[1])), t[2][1], '1' if t[3] else '0']
+    for k, o, x in t[1]:
+        out += [hx(json.loads(k)), '1' if o else '0'] + tree_tokens(x)
+    return out
+
+
+class Num(str):
+    """a JSON number kept as it is spelled"""
+
+
+def canon_item(x):
+    if isinstance(x, Num):
+        return str(x)
+    return json.dumps(x, ensure_ascii=False, sort_keys=True)
+
+
+def canon_leaf(o):
+    keys = []
+    for k in ('type', 'minimum', 'exclusiveMinimum', 'maximum', 'exclusiveMaximum', 'minLength', 'maxLength'):
+        if k in o:
+            v = o[k]
+            keys.append('%s=%s' % (k, 'true' if v is True else 'false' if v is False else v))
+    if 'multipleOf' in o:
+        r = str(o['multipleOf'])
+        e = re.match(r'1e-(\d+)$', r)
+        f = re.match(r'0\.(0*)1$', r)
+        keys.append('multipleOf=%s' % (int(e.group(1)) if e else len(f.group(1)) + 1 if f else 0 if r == '1' else 'raw:' + r))
+    if 'enum' in o:
+        keys.append('enum=' + ','.join(hx(canon_item(x)) for x in o['enum']))
+    if 'nullable' in o:
+        keys.append('nullable=%s' % json.dumps(o['nullable']))
+    return ';'.join(keys)
+
+
+def canon_node(o):
+    """a Schema Object in the spelling of Extract/RunOast.v"""
+    if not isinstance(o, dict):
+        return 'notanobject'
+    t = o.get('type')
+    if t == 'array':
+        items = o.get('items', {})
+        its = items['anyOf'] if isinstance(items, dict) and set(items.keys()) == {'anyOf'} else ([] if items == {} else [items])
+        parts = (['mn=%s' % o['minItems']] if 'minItems' in o else []) + (['mx=%s' % o['maxItems']] if 'maxItems' in o else [])
+        parts += ['nullable'] if o.get('nullable') is True else []
+        parts.append('[' + ','.join(canon_node(x) for x in its) + ']')
+        return 'A(' + ';'.join(parts) + ')'
+    if t == 'object':
+        ap = o.get('additionalProperties', True)
+        apc = 'f' if ap is False else 'y' if ap is True else ('t:%s' % ap['type']) if isinstance(ap, dict) and set(ap.keys()) == {'type'} else 'other'
+        parts = ['req=[' + ','.join(hx(k) for k in o.get('required', [])) + ']', 'ap=' + apc]
+        parts += ['nullable'] if o.get('nullable') is True else []
+        parts.append('{' + ','.join(hx(k) + ':' + canon_node(v) for k, v in o.get('properties', {}).items()) + '}')
+        return 'O(' + ';'.join(parts) + ')'
+    return 'L(' + canon_leaf(o) + ')'
+
+
 def leaves_of(n, path=()):
     if n[0] == 'L':
         yield path, n
@@ -125,6 +326,20 @@ class Prop:
             for form in ['%s // {type: "%s"}', '%s // {or: ["%s", "integer"]}', '%s // {or: [{type: "%s"}, {type: "integer", min: 0}]}',
                          '{\n  "k": %s, // {or: [{type: "%s"}, {type: "@t"}]}\n  "n": 1\n}', '[\n  %s // {or: [{type: "%s", nullable: true}, "boolean"]}\n]']:
                 cs.append(Case('oas ' + hx(form % (ex, fmt)), 'format'))
+        # scalar nodes with every keyword the converter derives from their rules, and trees of them under arrays and
+        # objects (compared with the Coq model of the conversion: Model/OasLeaf.v, Model/OasTree.v)
+        self.treeq = {}
+        pool = leaf_cases()
+        for ex, kind, rules in pool:
+            t = ('V', ex, kind, rules)
+            line = 'oas ' + hx(tree_text(t, 0, [], ''))
+            self.treeq[line] = 'oast ' + ' '.join(tree_tokens(t))
+            cs.append(Case(line, 'leaf-keywords'))
+        for i in range(400 if tier == 'quick' else 6000):
+            t = gen_tree(rng, 0, pool)
+            line = 'oas ' + hx(tree_text(t, 0, [], ''))
+            self.treeq[line] = 'oast ' + ' '.join(tree_tokens(t))
+            cs.append(Case(line, 'tree'))
         self.case_class = {c.line: c.klass for c in cs}
         return cs
 
@@ -157,31 +372,39 @@ class Prop:
             m = self.models.get(l)
             if m is not None and m[0] == 'L' and self.case_class.get(l) == 'bound':
                 leaf = to_leaf(m[1], m[2])
-                ql.append('oasleaf ' + ' '.join(c01.tok_leaf(leaf)))
+                ql.append('oast V ' + hx(m[1]) + ' ' + ' '.join(c01.tok_leaf(leaf)))
+            elif l in self.treeq:
+                ql.append(self.treeq[l])
             else:
                 ql.append(None)
         return ql
 
     case_class = {}
+    treeq = {}
 
     def project(self, out):
+        """the Schema Object in the spelling of the model's answer (numbers as they are written)"""
         m = re.match(r'ok example=(\S+) openapi=([0-9a-f]+)$', out)
         if not m:
             return out
         try:
-            o = json.loads(bytes.fromhex(m.group(2)).decode())
+            o = json.loads(bytes.fromhex(m.group(2)).decode(), parse_float=Num, parse_int=Num)
         except Exception:
             return out
-        keys = []
-        for k in ('type', 'minimum', 'exclusiveMinimum', 'maximum', 'exclusiveMaximum'):
-            if k in o:
-                v = o[k]
-                raw = re.search(r'"%s":([^,}]+)' % k, bytes.fromhex(m.group(2)).decode()).group(1)
-                keys.append('%s=%s' % (k, raw.strip('"')))
-        return ' '.join(keys)
+        return canon_node(o)
 
     def project_model(self, out):
-        return out
+        def fix_enum(mm):
+            items = [x for x in mm.group(1).split(',') if x]
+            lits = ['' if x == '-' else bytes.fromhex(x).decode('utf-8', 'replace') for x in items]
+            vals = []
+            for lit in lits:
+                try:
+                    vals.append(canon_item(json.loads(lit, parse_float=Num, parse_int=Num)))
+                except Exception:
+                    vals.append('unreadable:' + lit)
+            return 'enum=' + ','.join(hx(v) for v in vals)
+        return re.sub(r'enum=([0-9a-f,\-]*)', fix_enum, out)
 
     def nontrivial(self, c):
         return True
@@ -204,7 +427,7 @@ class Prop:
                 bad.append((c, 'asked a second time, the same schema object gives another answer: ' + o[6:])); continue
             if not m:
                 if c.line in self.models:
-                    bad.append((c, 'a valid schema is not accepted: ' + o[:80]))
+                    bad.append((c, 'TIE:a generated schema is refused by the library (C08 speaks about accepted schemas only): ' + o[:80]))
                 continue
             ex, oas = m.group(1), m.group(2)
             if not re.match(r'^[0-9a-f]+$', ex):
@@ -248,7 +471,10 @@ class Prop:
 
     def describe(self):
         return dict(
-            rule='generated schema models (rule sets per type, 20-digit bounds, enum / or / const / nullable / optional, references, key shortcuts, nested containers) and '
+            rule='scalar nodes with every rule the converter turns into a keyword (lengths, precision up to the limits of float64, enum, const, nullable, '
+                 'explicit types, null examples) and random trees of them under arrays (item counts) and objects (escaped keys, optional members, every '
+                 'additionalProperties form without references): the whole Schema Object is compared with the Coq model of the conversion; '
+                 'generated schema models (rule sets per type, 20-digit bounds, enum / or / const / nullable / optional, references, key shortcuts, nested containers) and '
                  'the sample schemas: Example() and the OpenAPI conversion must succeed, the output must be a well-formed Schema Object, and the example - and, one '
                  'scalar at a time, every value of a pool that the leaf\'s own rules accept (judged by the exact C01 oracle) - must be valid against it, with the '
                  'registered types as components; scalar leaves with bounds are also compared with the Coq model of the translation',
